@@ -57,7 +57,9 @@ Fixpoint find_index {A : Type} (f : A -> bool) (l : list A) : option nat :=
   end.
 
 (* i16 / u8 / u16 / u64 wrap-around *)
-Definition wrap16 (z : Z) : Z := ((z + 32768) mod 65536 - 32768)%Z.
+Definition wrap16 (z : Z) : Z :=
+  if ((-32768 <=? z) && (z <=? 32767))%Z then z       (* fast path, same value *)
+  else ((z + 32768) mod 65536 - 32768)%Z.
 Definition I16_MIN : Z := (-32768)%Z.
 Definition I16_MAX : Z := 32767%Z.
 Definition U64_MAX : Z := 18446744073709551615%Z.
